@@ -3,6 +3,8 @@ replay files into known_findings.json after they have been triaged by hand."""
 import glob, json, sys
 prop = sys.argv[1]
 what = {
+ "D13": "an ancestor reached through an unlinked edge that is not the direct parent of the built function (or through a path mixing linked and unlinked edges) is neither locked nor propagating: it accepts a modification and the built descendant silently keeps the old table (core.py compile L487-489, lock L427-428)",
+ "D14": "add_mixins on a function that is already in use (or on one of its linked ancestors) does not rebuild: the new mixin's methods are ignored (core.py add_mixins L434-440 has no _update())",
  "D1": "levels are integers: two applicable declared types that are unrelated (neither a subclass of the other) at different depths compare as ordered, so a method wins although the documented rule says Ambiguous (typemap.py Candidate.dominates / sort_key)",
  "D8": "the generated entry point's early exit for an omitted optional positional truncates the lookup key and the forwarded arguments: keyword arguments are dropped / another method runs / the call is rejected (recode.py generate_dispatch L149-160)",
  "D9": "a call with zero arguments bypasses resolution: MultiTypeMap.empty is the last registered zero-parameter entry whatever the priorities, and methods whose parameters are all optional are ignored (typemap.py L213-214, L377-382)",
